@@ -57,6 +57,8 @@ structure Cfg where
   /-- `false` = the pinned tree (X11 button byte passed to `buildMouseEvent` with its +32 offset, no button state);
   `true` = the repaired variant of fixes/C12-x11-offset.patch (offset removed, press/drag/release handled as in the SGR path) -/
   x11Fixed : Bool := false
+  /-- `false` = the pinned `parseClipboard`; `true` = the repaired one of fixes/C02-clipboard.patch (`parseClipboardF`) -/
+  clipFixed : Bool := false
 
 /-! ### NewEventKey (key.go:243-262) -/
 
@@ -341,6 +343,38 @@ def parseClipboard (st : PState) (b : Bytes) : Verdict :=
   if b.length ≤ 7 then (if hasPrefix clipPrefix b then .part else .reject)
   else clipLoop st b (b.drop 7) 0 (b.drop 7)
 
+/-! ### parseClipboard as repaired by fixes/C02-clipboard.patch
+
+```go
+if !bytes.HasPrefix(b, prefix) { return false, false }      // the 7 prefix bytes are checked
+b = b[len(prefix):]
+for i, c := range b {                                       // `seen` below is b[:i]
+    … case '\a':  b = b[:i];   decode; buf.Next(len(prefix) + i + 1); return true, true
+    … case '\\':  b = b[:i-1]; decode; buf.Next(len(prefix) + i + 1); return true, true   // state 1: b[i-1] is the ESC
+```
+-/
+
+/-- the repaired loop: `seen = b[:i]` are the payload bytes already scanned (in state 1 the last one is the ESC) -/
+def clipLoopF (st : PState) : (state : Nat) → (seen : Bytes) → Bytes → Verdict
+  | _, _, [] => .part
+  | 0, seen, c :: rest =>
+    if isB64 c then clipLoopF st 0 (seen ++ [c]) rest
+    else if c = 27 then clipLoopF st 1 (seen ++ [c]) rest
+    else if c = 7 then .complete (7 + seen.length + 1) (clipEvents seen) st
+    else .reject
+  | _ + 1, seen, c :: _ =>
+    if c = 92 then .complete (7 + seen.length + 1) (clipEvents seen.dropLast) st
+    else .reject
+
+def parseClipboardF (st : PState) (b : Bytes) : Verdict :=
+  if b.length ≤ 7 then (if hasPrefix clipPrefix b then .part else .reject)
+  else if !hasPrefix b clipPrefix then .reject
+  else clipLoopF st 0 [] (b.drop 7)
+
+/-- the clipboard parser of the tree under test -/
+def parseClipboardV (fixed : Bool) : PState → Bytes → Verdict :=
+  if fixed then parseClipboardF else parseClipboard
+
 /-! ### collectEventsFromInput (tscreen.go:1722-1812) -/
 
 inductive Step where
@@ -353,7 +387,7 @@ deriving DecidableEq, Repr, Inhabited
 def parsers (cfg : Cfg) : List (PState → Bytes → Verdict) :=
   [parseRune cfg.dec, parseFunctionKey cfg.keys, parseFocus]
   ++ (if cfg.mouse then [parseXtermMouse cfg, parseSgrMouse cfg] else [])
-  ++ (if cfg.clipboard then [parseClipboard] else [])
+  ++ (if cfg.clipboard then [parseClipboardV cfg.clipFixed] else [])
 
 /-- the fall-through of tscreen.go:1781-1804: a lone ESC becomes `KeyEsc`, an ESC followed by more sets
 `escaped`, any other byte is delivered as `KeyRune` -/
@@ -472,6 +506,6 @@ def decTable (tbl : List Int) (p : Bytes) : DecResult :=
 /-- configuration of the parser of a screen built for `ti` -/
 def cfgOf (v : Variant) (ti : Terminfo) (dec : Bytes → DecResult) (w h : Int) : Cfg :=
   { keys := buildKeys v.keycaps ti, mouse := mouseActive ti, clipboard := clipboardActive ti, dec := dec, w := w, h := h,
-    x11Fixed := v.x11 }
+    x11Fixed := v.x11, clipFixed := v.clip }
 
 end Tcell.Model
